@@ -141,9 +141,9 @@ def _pins(m, cond):
     return pins
 
 
-def _run_history(npr, k, cons, events=None, flood=None):
+def _run_history(npr, k, cons, events=None, flood=None, intr=None):
     from harness import C30_hist as HH
-    return HH.explore_history(npr, k, constraints=cons, events=events or HH.EVENTS, flood_sizes=flood)
+    return HH.explore_history(npr, k, constraints=cons, events=events or HH.EVENTS, flood_sizes=flood, intr=intr)
 
 
 def decide_history(spec):
@@ -152,7 +152,7 @@ def decide_history(spec):
     t0 = time.time()
     npr, k = spec['npr'], spec['k']
     cons = [z3.Int(n) == i for n, i in (spec.get('shard') or {}).items()]
-    outs, ex = _run_history(npr, k, cons, spec.get('events'), spec.get('flood'))
+    outs, ex = _run_history(npr, k, cons, spec.get('events'), spec.get('flood'), spec.get('intr'))
     allc = ex.constraints
     res = {'spec': spec, 'paths': len(outs), 'solver_calls': ex.solver_calls, 'merging_paths': 0, 'merges': 0,
            'updates': 0, 'events': 0, 'aborted_updates': 0, 'violations': [], 'validated': 0, 'samples': []}
@@ -176,6 +176,8 @@ def decide_history(spec):
         for what, f in HH.judge(w):
             if not z3.is_false(z3.simplify(f)):
                 bad.append((o, what, z3.And(o.cond, f)))
+        res['inflight_merges'] = res.get('inflight_merges', 0) + w.inflight_merges
+        res['deliveries_during_updates'] = res.get('deliveries_during_updates', 0) + w.inflight
     res['reach'] = _solve(allc, [z3.Or(*reach) if reach else z3.BoolVal(False)])[0]
     tq = time.time()
     r, m = _solve(allc, [z3.Or(*[f for _, _, f in bad]) if bad else z3.BoolVal(False)])
@@ -184,7 +186,7 @@ def decide_history(spec):
     while r == 'sat' and len(res['violations']) < 3:
         o, what, f = next(x for x in bad if z3.is_true(m.eval(x[2], model_completion=True)))
         pins = _pins(m, f)
-        rep = replay_history({'npr': npr, 'k': k, 'pins': pins, 'events': spec.get('events'), 'flood': spec.get('flood')}, quiet=True)
+        rep = replay_history({'npr': npr, 'k': k, 'pins': pins, 'events': spec.get('events'), 'flood': spec.get('flood'), 'intr': spec.get('intr')}, quiet=True)
         res['violations'].append({'what': what, 'events': [str(t) for t in o.value.trace], 'pins': pins,
                                   'reproduced': rep == 1})
         seen.add(what.split(': ')[-1])
@@ -198,7 +200,7 @@ def decide_history(spec):
         if r2 != 'sat':
             raise HarnessError('explored path has an unsatisfiable path condition')
         outs2, _ = _run_history(npr, k, [(_c(n) == val) if not isinstance(val, bool) else (z3.Bool(n) == val)
-                                         for n, val in _pins(m2, o.cond).items()], spec.get('events'), spec.get('flood'))
+                                         for n, val in _pins(m2, o.cond).items()], spec.get('events'), spec.get('flood'), spec.get('intr'))
         got = [[(x['pr'], x['head'], x['target_before']) for x in p.value.gh.merges] for p in outs2]
         want = [(x['pr'], x['head'], x['target_before']) for x in o.value.gh.merges]
         if got != [want]:
@@ -215,7 +217,7 @@ def _c(name):
 def replay_history(rp, quiet=False):
     from harness import C30_hist as HH
     cons = [(z3.Bool(n) == val) if isinstance(val, bool) else (z3.Int(n) == val) for n, val in rp['pins'].items()]
-    outs, ex = _run_history(rp['npr'], rp['k'], cons, rp.get('events'), rp.get('flood'))
+    outs, ex = _run_history(rp['npr'], rp['k'], cons, rp.get('events'), rp.get('flood'), rp.get('intr'))
     hit = 0
     for o in outs:
         if o.exc is not None:
